@@ -250,7 +250,9 @@ Post(t, children) ==
        \* C12: a launch that failed after the fork still started a child; it must have been reaped when create() returns
        \cup V(~res.ok /\ forked => children = "none", "C12_child_of_failed_launch_reaped")
        \cup V({<<x[1], x[2], x[3]>> : x \in View(pt)} = {<<x[1], x[2], x[3]>> : x \in View(base)}, "C07_no_descriptor_left_open")
-       \cup V(\A i \in 0..2 : i \in DOMAIN base => (i \in DOMAIN pt /\ pt[i].ino = base[i].ino /\ pt[i].acc = base[i].acc),
+       \* (also not its close-on-exec flag: later children would lose the stream they are to inherit)
+       \cup V(\A i \in 0..2 : i \in DOMAIN base => (i \in DOMAIN pt /\ pt[i].ino = base[i].ino /\ pt[i].acc = base[i].acc
+                                                          /\ pt[i].cx = base[i].cx),
               "C05_parent_std_untouched")
   /\ UNCHANGED <<cfg, base, pre, ptab, ctab, forked, nforks, execd, didExec, attempts, libpipes, maxAllocs, res,
                  reported, penv, pcwd, pass, parentStdTouched, sanity>>
